@@ -53,6 +53,14 @@ class Observer:
         if getattr(run, "tainted", False):
             return
         ctx = self.ctx
+        # A new director: between the moment it is given its targets and `reconcile_targets` the cached
+        # attributes refer to the targets of the previous director; no decision is taken in between.
+        if op in ("retarget", "check_consistency"):
+            self.restarting = True
+        elif op == "reconcile":
+            self.restarting = False
+        if getattr(self, "restarting", False):
+            return
         if op == "pop" and self.expected is not None and ans.startswith("ok"):
             elig, _ = self.expected
             choice = ans.split(" ")[1]
